@@ -43,7 +43,8 @@ class DenseTimeInterpreter(TimeInterpreter):
         elif len(node.end_unit) == 0:
             e_unit = node.begin_unit
 
-        b = b * (self.ast.U[self.ast.unit] / self.ast.U[b_unit])
-        e = e * (self.ast.U[self.ast.unit] / self.ast.U[e_unit])
+        # from the unit of the bound to the default unit
+        b = float(b * self.ast.U[b_unit] / self.ast.U[self.ast.unit])
+        e = float(e * self.ast.U[e_unit] / self.ast.U[self.ast.unit])
 
         return b, e
